@@ -45,6 +45,7 @@ class Agg:
         self.exhaustive = True
         self.max_depth = 0
         self.extra = collections.Counter()
+        self.closed = False
 
     def add(self, res, program=None):
         self.programs += 1
@@ -172,6 +173,8 @@ def level_bfs(expand, roots, depth):
             agg.max_depth = level
             frontier = nxt
             if not frontier:
+                if not last:
+                    agg.closed = True   # the (capped) state space was explored completely
                 break
     finally:
         if pool is not None:
